@@ -310,7 +310,8 @@ func (vc *FuncVC) closedAxiom(st *State, key string) {
 	}
 	body := Implies(Select(al, App(SRef, "root", r), SBool), Or(Eq(tgt, Null), Select(al, App(SRef, "root", tgt), SBool)))
 	if key == "H:Slice" {
-		body = And(body, Implies(Select(al, App(SRef, "root", r), SBool), Not(App(SBool, "iscell", App(SRef, "root", tgt)))))
+		// every slice header stored in allocated memory is well formed (0 <= len <= cap, nil array => cap 0, ...)
+		body = And(body, Implies(Select(al, App(SRef, "root", r), SBool), vc.sliceWF(sel)))
 	}
 	vc.emit("(assert %s)", Forall([]Term{r}, body, sel).S)
 }
@@ -510,7 +511,7 @@ func (vc *FuncVC) typeFacts(t Term, ty types.Type, depth int) Term {
 			return And(App(SBool, "<=", BigLit(lo), t), App(SBool, "<=", t, BigLit(hi)))
 		}
 	case *types.Slice:
-		return vc.sliceWF(t)
+		return And(vc.sliceWF(t), vc.arrayTyped(t, u))
 	case *types.Struct:
 		if depth >= 2 || vc.tc.StructInfo(t.Sort) == nil {
 			return True
@@ -829,4 +830,10 @@ func (vc *FuncVC) ghostStateComp(pf *PureFunc) (string, Sort, Sort) {
 	key := "GS:" + pf.Name
 	vc.ensureComp(key, ArraySort(ks, vs))
 	return key, ks, vs
+}
+
+// arrayTyped: the backing array of a []T holds T's (two slices of different element types never share an array).
+func (vc *FuncVC) arrayTyped(t Term, st *types.Slice) Term {
+	arr := App(SRef, "sarr", t)
+	return Or(Eq(arr, Null), Eq(App(SInt, "atype", arr), IntLit(int64(vc.tc.TypeID(st.Elem())))))
 }
